@@ -3,7 +3,7 @@ import math
 
 from engine import loader
 from engine.runner import Acc
-from engine.util import call, chunks, other_bits
+from engine.util import call, chunks, other_bits, vary_case
 from spec import frames as F
 
 LEVEL = "exploration"
@@ -113,6 +113,7 @@ def w19(arg):
         msg = F.es(base, 0x406B90, 5, 17)
         if bgmask:
             msg = F.hexn(int(msg, 16) ^ bgmask, 112)
+        msg = vary_case(msg, acc.n)
         acc.n += 1
         s = judge19(msg, expect19(st, f14, a, f25, b, vrsrc, vrsign, vr), dexp_of(dsign, diff))
         if s:
@@ -199,7 +200,7 @@ def w_surface(arg):
             for trk in range(128):
                 k = mov * 256 + st * 128 + trk
                 me = F.me(tc, [(6, 7, mov), (13, 1, st), (14, 7, trk)], rest=[0, (1 << 36) - 1, 0x5A5A5A5A5][k % 3])
-                msg = F.es(me, [0x406B90, 0xFFFFFF][k % 2], k % 8, 17 + k % 2, [0, 0xFFFFFF][k % 2])
+                msg = vary_case(F.es(me, [0x406B90, 0xFFFFFF][k % 2], k % 8, 17 + k % 2, [0, 0xFFFFFF][k % 2]), k)
                 acc.n += 1
                 s = judge_surface(msg, mov, st, trk)
                 if s:
